@@ -1557,3 +1557,93 @@ B('c19-benign-data-default-rewrite', 'C19', F,
         else:
             self.default = default
 ''')
+
+# =========================================================================== C09
+S('c09-reflected-not-swapped', 'C09', DF,
+  '''            binary_op,
+            is_binary=True,
+            swap_binary_arguments=True
+        )''',
+  '''            binary_op,
+            is_binary=True
+        )''', 'R9-reflected-swap')
+S('c09-swap-branch-same-order', 'C09', DF,
+  '''            setattr(target, methodname, lambda A, B: BinaryExpr(B, A, op))''',
+  '''            setattr(target, methodname, lambda A, B: BinaryExpr(A, B, op))''', 'R9-reflected-swap')
+S('c09-reversed-dropped', 'C09', DF,
+  '''            result = op(*reversed(args[:arg_count]))''', '''            result = op(*args[:arg_count])''', 'R9-stack-discipline')
+S('c09-push-back-only', 'C09', DF, '''        args.insert(0, result)''', '''        args.append(result)''', 'R9-stack-discipline')
+S('c09-delete-one-too-few', 'C09', DF, '''            del args[:arg_count]''', '''            del args[:arg_count - 1]''', 'R9-stack-discipline')
+S('c09-collector-sorted', 'C09', DF, '''            cb = lambda *vargs: vargs''', '''            cb = lambda *vargs: tuple(sorted(vargs))''', 'R9-postfix')
+S('c09-mapping-keys-sorted', 'C09', DF,
+  '''            keys, values = zip(*argmapping.items())''', '''            keys, values = sorted(argmapping), list(argmapping.values())''', 'R9-postfix')
+S('c09-right-before-left', 'C09', DF,
+  '''        compile_expr(l, ops, level=next_level)
+        compile_expr(r, ops, level=next_level)
+        ops.append(2, op, level)''',
+  '''        compile_expr(r, ops, level=next_level)
+        compile_expr(l, ops, level=next_level)
+        ops.append(2, op, level)''', 'R9-postfix')
+S('c09-rsub-in-forward-table-name', 'C09', DF,
+  '''        methodname = "__r%s__" % op_name
+        _defer_method(''',
+  '''        methodname = "__%sr__" % op_name
+        _defer_method(''', 'R9-operator-dunders')
+S('c09-inv-name', 'C09', DF, '''            op_name = "invert"''', '''            op_name = "inv"''', 'R9-operator-dunders')
+S('c09-table-wrong-op', 'C09', DF,
+  '''        # arith ------------------------------------
+        operator.add,
+        operator.sub,
+        operator.mul,
+        operator.truediv,
+        operator.floordiv,
+        operator.mod,
+        operator.pow,
+
+        # logical ----------------------------------
+        operator.and_,''',
+  '''        # arith ------------------------------------
+        operator.add,
+        operator.sub,
+        operator.mul,
+        operator.truediv,
+        operator.mod,
+        operator.pow,
+
+        # logical ----------------------------------
+        operator.and_,''')
+S('c09-unary-as-binary', 'C09', DF, '''        _defer_method(cls, methodname, unary_op, is_binary=False)''', '''        _defer_method(cls, methodname, operator.neg, is_binary=False)''', 'R9-operator-dunders')
+S('c09-if-true-inverted', 'C09', DF,
+  '''    return value_if_true if bool(condition) else value_if_false''', '''    return value_if_false if bool(condition) else value_if_true''', 'R9-selectors')
+S('c09-chooses-get', 'C09', DF, '''    return options[index]''', '''    return options[index] if index in options else options[0]''', 'R9-selectors')
+S('c09-exec-swallows', 'C09', DF,
+  '''        else:
+            result = op(*reversed(args[:arg_count]))
+            del args[:arg_count]''',
+  '''        else:
+            try:
+                result = op(*reversed(args[:arg_count]))
+            except ZeroDivisionError:
+                result = 0
+            del args[:arg_count]''', 'R9-stack-discipline')
+S('c09-field-leaf-late-name', 'C09', DF,
+  '''            cb = lambda pkt, *vargs, **kargs: getattr(pkt, field_name)''',
+  '''            cb = lambda pkt, *vargs, **kargs: getattr(pkt, field_name, 0)''', 'R9-postfix')
+S('c09-shared-stack', 'C09', DF, '''    args = list(args)
+
+    for arg_count, op in ops:''', '''    for arg_count, op in ops:''', 'R9-stack-discipline')
+B('c09-benign-push-back-consistent', 'C09', DF,
+  '''        if arg_count == 0:
+            result = op(pkt, *vargs, **kargs)
+        else:
+            result = op(*reversed(args[:arg_count]))
+            del args[:arg_count]
+
+        args.insert(0, result)''',
+  '''        if arg_count == 0:
+            result = op(pkt, *vargs, **kargs)
+        else:
+            result = op(*args[-arg_count:])
+            del args[-arg_count:]
+
+        args.append(result)''')
